@@ -51,11 +51,16 @@ type Ctl struct {
 	free   bool                       // det mode, but gates no longer park (final release)
 	self   int64                      // goroutine id of the driver
 	Jitter int                        // stress: 1/Jitter of the gates yield the processor
+	old    map[int64]bool             // goroutines that existed before this world (left over from earlier cases)
 }
 
 func NewCtl(t int, out *ndj.Writer, det bool) *Ctl {
-	return &Ctl{out: out, T: t, Det: det, byGoid: map[int64]*Proc{}, Procs: map[string]*Proc{}, occ: map[string]int{},
-		parked: map[string][]chan struct{}{}, at: map[string]string{}, self: goid(), Jitter: 3}
+	c := &Ctl{out: out, T: t, Det: det, byGoid: map[int64]*Proc{}, Procs: map[string]*Proc{}, occ: map[string]int{},
+		parked: map[string][]chan struct{}{}, at: map[string]string{}, self: goid(), Jitter: 3, old: map[int64]bool{}}
+	for _, g := range dumpAll() {
+		c.old[g.ID] = true
+	}
+	return c
 }
 
 func goid() int64 {
@@ -238,6 +243,18 @@ type G struct {
 	Raw    string
 }
 
+// dump returns the goroutines that belong to this world.
+func (c *Ctl) dump() []G {
+	all := dumpAll()
+	out := all[:0]
+	for _, g := range all {
+		if !c.old[g.ID] || g.ID == c.self {
+			out = append(out, g)
+		}
+	}
+	return out
+}
+
 func dumpAll() []G {
 	buf := make([]byte, 1<<20)
 	for {
@@ -318,7 +335,7 @@ func (c *Ctl) Settle(max time.Duration) (bool, []G) {
 	deadline := time.Now().Add(max)
 	okRuns := 0
 	for {
-		gs := dumpAll()
+		gs := c.dump()
 		all := true
 		for i := range gs {
 			g := &gs[i]
